@@ -2,6 +2,9 @@ use crate::report::Report;
 use crate::Opts;
 use serde_json::Value;
 
+pub mod c01;
+pub mod c02;
+pub mod c03;
 pub mod c06;
 pub mod c07;
 pub mod c08;
@@ -22,6 +25,9 @@ pub type ReplayResult = Result<Vec<String>, (Vec<String>, String, String)>;
 
 pub fn run(prop: &str, opts: &Opts) -> Vec<Report> {
     match prop {
+        "C01" => c01::run(opts),
+        "C02" => c02::run(opts),
+        "C03" => c03::run(opts),
         "C06" => c06::run(opts),
         "C07" => c07::run(opts),
         "C08" => c08::run(opts),
@@ -43,6 +49,9 @@ pub fn run(prop: &str, opts: &Opts) -> Vec<Report> {
 
 pub fn replay(prop: &str, case: &Value) -> ReplayResult {
     match prop {
+        "C01" => c01::replay(case),
+        "C02" => c02::replay(case),
+        "C03" => c03::replay(case),
         "C06" => c06::replay(case),
         "C07" => c07::replay(case),
         "C08" => c08::replay(case),
@@ -64,6 +73,7 @@ pub fn replay(prop: &str, case: &Value) -> ReplayResult {
 
 pub fn child(prop: &str, spec: &str) {
     match prop {
+        "C03" => c03::child(spec),
         "C07" => c07::child(spec),
         _ => crate::explore::machinery(&format!("no child mode for {}", prop)),
     }
